@@ -66,6 +66,7 @@ type Contract struct {
 	AllocBound   uint64   // >0: every make([]T, n) in the function has n <= AllocBound (obligation kind "alloc")
 	AllocProps   []string
 	Reveal       []string // opaque specification functions whose definition this proof may use
+	Counts       []string // callees whose calls made by this function are counted (ghost counters read by vcCalls)
 	AtCalls      []*Clause
 	LightCalls   bool   // proof hint: quantified postconditions of callees are not imported
 	Pure         bool   // interface method: its results are functions of the receiver and the arguments
@@ -270,7 +271,12 @@ func ParseContractFile(pkgKey, path string) ([]*Contract, error) {
 					text = strings.TrimSpace(parts[2])
 				}
 			}
-			cur.AtCalls = append(cur.AtCalls, &Clause{Kind: "atcall", Props: props, Text: text, Callee: callee, Line: it.line, N: len(cur.AtCalls), CalleeTypes: ptypes})
+			// optional [x T, ...]: locals of the enclosing function, with their values at the call
+			binders, body, err := splitBinders(text)
+			if err != nil {
+				return nil, fmt.Errorf("%s:%d: %v", path, it.line, err)
+			}
+			cur.AtCalls = append(cur.AtCalls, &Clause{Kind: "atcall", Props: props, Text: body, Callee: callee, Line: it.line, N: len(cur.AtCalls), CalleeTypes: ptypes, Binder: binders})
 		case "pure":
 			cur.Pure = true
 			if rest != "" {
@@ -283,6 +289,8 @@ func ParseContractFile(pkgKey, path string) ([]*Contract, error) {
 			cur.LightCalls = true
 		case "reveal":
 			cur.Reveal = append(cur.Reveal, strings.Fields(rest)...)
+		case "counts":
+			cur.Counts = append(cur.Counts, strings.TrimSpace(rest))
 		case "split":
 			if rest != "returns" {
 				return nil, fmt.Errorf("%s:%d: split returns", path, it.line)
